@@ -534,6 +534,14 @@ def _interval(fn, g, at, e, depth=0):
     return None
 
 
+# library calls that access `length` bytes of a buffer: name -> [(buffer argument, [length arguments (multiplied)])]
+LENGTH_CALLS = {
+    "fread": [(0, [1, 2])], "fwrite": [(0, [1, 2])], "memset": [(0, [2])], "memcpy": [(0, [2]), (1, [2])],
+    "memmove": [(0, [2]), (1, [2])], "strncpy": [(0, [2])], "snprintf": [(0, [1])], "fgets": [(0, [1])],
+    "memcmp": [(0, [2]), (1, [2])], "strncat": [(0, [2])],
+}
+
+
 def rule_index_ranges(prog, fixture=False):
     r = RuleResult("R-C08-4", "input-dependent array subscripts and fread lengths in the decoders stay inside the "
                    "array (type-range intervals refined by dominating comparisons)", floor=0 if fixture else 4)
@@ -572,18 +580,118 @@ def rule_index_ranges(prog, fixture=False):
                 r.add(key, fn.loc(n), ok, "index in [%d,%d], array of %d" % (iv[0], iv[1], ext) if ok else
                       "`%s`: the index can be %s, outside the array of %d elements" %
                       (show(n), ("anything" if iv is None else "in [%d,%d]" % iv), ext))
-            elif n.get("k") == "CallExpr" and notpl(n.get("q") or "") == "fread":
+            elif n.get("k") == "CallExpr" and notpl(n.get("q") or "").split("::")[-1] in LENGTH_CALLS:
+                name = notpl(n.get("q") or "").split("::")[-1]
                 a = call_args(n)
-                ext = _array_extent(a[0])
-                if ext is None:
+                for bufi, leni in LENGTH_CALLS[name]:
+                    if bufi >= len(a) or any(i >= len(a) for i in leni):
+                        continue
+                    ext = _array_extent(a[bufi])
+                    if ext is None:
+                        continue
+                    g = g or Guards(fn)
+                    ivs = [_interval(fn, g, n, a[i]) for i in leni]
+                    k += 1
+                    key = "%s::%s::%s(%s)" % (fn.relfile(), fn.qn, name, show(a[bufi]))
+                    total = 1
+                    for iv in ivs:
+                        total = None if (iv is None or total is None) else total * iv[1]
+                    ok = total is not None and total <= ext
+                    r.add(key, fn.loc(n), ok, "at most %d bytes, array of %d" % (total, ext) if ok else
+                          "%s may access more than the %d bytes of `%s` (length %s)" %
+                          (name, ext, show(a[bufi]), "unbounded" if total is None else "up to %d" % total))
+    return r
+
+
+# ---------------------------------------------------------------- R-C08-8
+ALLOCATORS = {"new_decoder": "destroy_decoder", "fopen": "fclose", "malloc": "free", "calloc": "free", "realloc": "free"}
+RELEASERS = set(ALLOCATORS.values())
+
+
+def rule_resource_typestate(prog, fixture=False):
+    from ..flow import PathStates
+    r = RuleResult("R-C08-8", "a pointer obtained from new_decoder/fopen/malloc is never used after it was handed to "
+                   "destroy_decoder/fclose/free or set to NULL (path-sensitive typestate over each function, loops "
+                   "included)", floor=0 if fixture else 2)
+    for fn in prog.functions.values():
+        # local pointer variables that are released somewhere in this function
+        released = {}
+        for n in fn.walk():
+            if n.get("k") == "CallExpr" and notpl(n.get("q") or "") in RELEASERS:
+                a = call_args(n)
+                v = strip_all(a[0]) if a else None
+                if v is not None and v.get("k") == "DeclRefExpr" and v.get("dk") == "Var":
+                    released[v["d"]] = v.get("n")
+        for d, name in released.items():
+            def elem_tf(n, st, d=d):
+                k = n.get("k")
+                if k == "CallExpr" and notpl(n.get("q") or "") in RELEASERS:
+                    a = call_args(n)
+                    v = strip_all(a[0]) if a else None
+                    if v is not None and v.get("k") == "DeclRefExpr" and v.get("d") == d:
+                        return "D"
+                tgt = rhs = None
+                if k == "BinaryOperator" and n.get("op") == "=":
+                    tgt, rhs = strip_all(n["c"][0]), n["c"][1]
+                elif k == "VarDecl" and n.get("d") == d:
+                    tgt, rhs = {"k": "DeclRefExpr", "d": d}, (n["c"][0] if n.get("c") else None)
+                    if rhs is None:
+                        return "U"
+                elif k == "DeclStmt":
+                    for v in n.get("c", []):
+                        if v.get("k") == "VarDecl" and v.get("d") == d:
+                            if not v.get("c"):
+                                return "U"
+                            rr = strip_all(v["c"][0])
+                            if folded(v["c"][0]) == 0:
+                                return "N"
+                            return "V" if rr is not None and rr.get("k") == "CallExpr" else "?"
+                if tgt is not None and tgt.get("k") == "DeclRefExpr" and tgt.get("d") == d and rhs is not None:
+                    rr = strip_all(rhs)
+                    if folded(rhs) == 0:
+                        return "N"
+                    if rr is not None and rr.get("k") == "CallExpr":
+                        return "V"
+                    return "?"
+                return st
+
+            def edge_tf(facts_, st, d=d):
+                # `if (0 == v)` / `if (!v)` edges refine the state
+                for k in facts_:
+                    if k[0] == "T" and k[1] == "d%s" % d:
+                        if k[2] is False:
+                            return "N" if st in ("V", "?", "N") else st
+                        if k[2] is True and st == "N":
+                            return None
+                    if k[0] == "C" and k[1] == "d%s" % d and k[3] == "#0":
+                        if k[2] == "==":
+                            return "N" if st in ("V", "?", "N") else st
+                        if k[2] == "!=" and st == "N":
+                            return None
+                return st
+            ps = PathStates(fn, "U", elem_tf, edge_tf)
+            k = 0
+            for n in fn.walk():
+                if n.get("k") != "CallExpr":
                     continue
-                g = g or Guards(fn)
-                s1, s2 = _interval(fn, g, n, a[1]), _interval(fn, g, n, a[2])
-                k += 1
-                key = "%s::%s::fread(%s)" % (fn.relfile(), fn.qn, show(a[0]))
-                ok = s1 is not None and s2 is not None and s1[1] * s2[1] <= ext
-                r.add(key, fn.loc(n), ok, "at most %d bytes into %d" % (s1[1] * s2[1], ext) if ok else
-                      "fread may store more than the %d bytes of `%s`" % (ext, show(a[0])))
+                for a in call_args(n):
+                    v = strip_all(a)
+                    if v is None or v.get("k") != "DeclRefExpr" or v.get("d") != d:
+                        continue
+                    k += 1
+                    sts = ps.before(n)
+                    if sts is None:
+                        continue
+                    key = "%s::%s::%s@%s" % (fn.relfile(), fn.qn, name, notpl(n.get("q") or "?"))
+                    bad = sorted(x for x in sts if x in ("D", "N", "U"))
+                    isrel = notpl(n.get("q") or "") in RELEASERS
+                    if isrel:
+                        bad = [x for x in bad if x in ("D", "U")]
+                    words = {"D": "already released", "N": "NULL", "U": "not yet assigned"}
+                    r.add(key, fn.loc(n), not bad, "valid on every path" if not bad else
+                          "`%s` is passed to %s on a path where it is %s: the object is used after it was destroyed "
+                          "(e.g. the second input file of one command line)" %
+                          (name, notpl(n.get("q") or "?"), " or ".join(words[x] for x in bad)))
     return r
 
 
@@ -591,7 +699,7 @@ def run(ctx):
     prog = ctx.prog("basic", "N")
     res = [c19.rule_uninit(ctx, ["basic"], rule_id="R-C08-1"),
            rule_option_tables(prog), rule_exit_status(prog), rule_diagnosed_failures(prog), rule_longindex(prog),
-           rule_cursor_discipline(prog), rule_index_ranges(prog)]
+           rule_cursor_discipline(prog), rule_index_ranges(prog), rule_resource_typestate(prog)]
     # the same table rule applies to dfs's global options
     dfs = ctx.prog("dfs", "N")
     r2 = rule_option_tables(dfs)
